@@ -90,12 +90,12 @@ def run(ctx):
                 wd = wd + gen.instantiate(rng, other.structure(), runlen=2)[0]
             elif r < 0.3:
                 wd = gen.recase(rng, wd)
-            check_case(ctx, {"cls": name, "word": gen.rot(wd, rng.randrange(len(wd)))})
+            ctx.guard(check_case, {"cls": name, "word": gen.rot(wd, rng.randrange(len(wd)))})
     # a third site of the class's own cutter inside the wildcard run, in every spelling
     for cls in kits:
         for _ in range(ctx.budget(3, 100)):
             wd = T.inner_site_instance(rng, cls)
-            check_case(ctx, {"cls": asm.cls_name(cls), "word": gen.rot(wd, rng.randrange(len(wd)))})
+            ctx.guard(check_case, {"cls": asm.cls_name(cls), "word": gen.rot(wd, rng.randrange(len(wd)))})
     for enz in asm.pick_enzymes(rng, ctx.budget(150, 4000)):
         name = str(enz)
         kind = rng.choice("MV")
@@ -105,4 +105,4 @@ def run(ctx):
             wd, _ = gen.gen_vector(rng, enz, gen.ovh(rng, enz), gen.ovh(rng, enz))
         if rng.random() < 0.2:
             wd += rng.choice([enz.site, gen.rc(enz.site)]) + gen.rnd(rng, 3)
-        check_case(ctx, {"cls": "generic:{}:{}".format(kind, name), "word": gen.rot(wd, rng.randrange(len(wd)))})
+        ctx.guard(check_case, {"cls": "generic:{}:{}".format(kind, name), "word": gen.rot(wd, rng.randrange(len(wd)))})
